@@ -275,8 +275,15 @@ def run(ctx):
                 r3.violation(key, "the zipped iterator is not the look-up's own result", site_of(b, p.outer_bb))
             else:
                 r3.ok(key, "extend(found.zip(1..).map(closure))")
-            _check_wrap(r3, "%s:closure" % mode, prog, b, p, p.rank if p.variant == "Emoji" else None, lambda e: subst_upvars(prog, p.closure, e), None, nt, acc, astuple,
-                        common.fn_line(prog, p.closure), p.closure)
+            ranks_ = getattr(p, "ranks", None) or [p.rank]
+            uniq = []
+            for r_ in ranks_:
+                if repr(r_) not in [repr(u) for u in uniq]:
+                    uniq.append(r_)
+            for n_, r_ in enumerate(uniq):
+                # every return path of the mapping closure must build the wrapped candidate
+                _check_wrap(r3, "%s:closure" % mode + ("" if n_ == 0 else "#%d" % n_), prog, b, p, r_ if p.variant == "Emoji" else None,
+                            lambda e: subst_upvars(prog, p.closure, e), None, nt, acc, astuple, common.fn_line(prog, p.closure), p.closure)
         # ---- R4
         for p in evs:
             if p.item is None:
